@@ -1095,7 +1095,6 @@ def primitives_stream(ctx, lad):
 
 # ------------------------------------------------------------------ hardening: state, types, bands, asymmetry
 
-KNOWN_OPTGIV = 'C14-optimal-givens-overwrites-argument'
 KNOWN_ABSORB = 'C14-cubic-absorb-exponent-period'
 
 
@@ -1343,9 +1342,7 @@ def hardening_stream(ctx, lad):
                                  ('prepare_slater_determinant',
                                   lambda M: of.prepare_slater_determinant(qubits, M[: max(1, n // 2)])),
                                  ('optimal_givens_decomposition',
-                                  lambda M: of.optimal_givens_decomposition(qubits, M.copy()))):
-                    if fname == 'optimal_givens_decomposition' and tn in ('float32', 'int64', 'int32', 'float64'):
-                        continue   # writes complex phases into its argument: real / integer arrays are not admissible
+                                  lambda M: of.optimal_givens_decomposition(qubits, M))):
                     ok, d = safe(st, 'T: %s(%s)' % (fname, tn), c2, lambda: maxdiff(
                         circuit_unitary(cirq, f(Wt), qubits), circuit_unitary(cirq, f(np.array(Wcanon, dtype=complex)), qubits)))
                     if ok:
@@ -1372,17 +1369,26 @@ def hardening_stream(ctx, lad):
                             circuit_unitary(cirq, f(list(occ)), qubits)[:, init_idx]))
                         if ok:
                             chk(c2, 'T: %s with a %s initial state = with the list' % (fname, tn), d)
-        # optimal_givens_decomposition: argument (known finding: it is overwritten)
+        # optimal_givens_decomposition: argument untouched, second call with the same array equal
         Wc = W0.copy()
         case = {'family': 'S', 'fn': 'optimal_givens_decomposition', 'n': n, 'unitary': Wc}
         st.case(case)
-        ok, _ = safe(st, 'optimal_givens_decomposition', case,
-                     lambda: list(of.optimal_givens_decomposition(qubits, W0)))
-        if ok and n >= 2:
-            st.count('S:argument-untouched')
-            if maxdiff(W0, Wc) != 0.0:
-                st.violate('S: optimal_givens_decomposition overwrites its unitary argument', case,
-                           {'max_abs_change': maxdiff(W0, Wc)})
+        st.count('S:argument-untouched')
+        ok, o1 = safe(st, 'optimal_givens_decomposition', case,
+                      lambda: list(of.optimal_givens_decomposition(qubits, W0)))
+        if ok:
+            chk(case, 'S: optimal_givens_decomposition must not modify its unitary argument', maxdiff(W0, Wc), 0.0)
+            U1 = circuit_unitary(cirq, o1, qubits)
+            o1.clear()
+            ok, o2 = safe(st, 'optimal_givens_decomposition (2nd call, same array)', case,
+                          lambda: list(of.optimal_givens_decomposition(qubits, W0)))
+            if ok:
+                U2 = circuit_unitary(cirq, o2, qubits)
+                chk(case, 'S: second call of optimal_givens_decomposition with the same array = first call',
+                    maxdiff(U2, U1))
+                for q in range(n):
+                    chk(case, 'S: conjugation identity of the second call of optimal_givens_decomposition',
+                        maxdiff(U2 @ lad.get(n, q, 1) @ U2.conj().T, sum(Wc[p, q] * lad.get(n, p, 1) for p in range(n))))
         # prepare_slater_determinant / prepare_gaussian_state arguments
         Q = rand_unitary(rs, n)[: max(1, n // 2)]
         Qc = Q.copy()
@@ -1486,8 +1492,6 @@ def classify(v):
     if (v['what'] == 'S: unitary unchanged by absorb_exponent_into_weights'
             and v['detail'].get('cubic_with_coupled_weights_wrapping_mod_2pi') is True):
         return KNOWN_ABSORB
-    if v['what'] == 'S: optimal_givens_decomposition overwrites its unitary argument':
-        return KNOWN_OPTGIV
     if (v['what'] == 'Quadratic gate differs from its class-docstring Hamiltonian'
             and v['detail'].get('agrees_with_docstring_after_flipping_sign_of_w1') is True):
         return KNOWN_DOC
@@ -1509,11 +1513,6 @@ def probe_known(ctx, k):
         U = cirq.unitary(g)
         g.absorb_exponent_into_weights()
         return bool(maxdiff(cirq.unitary(g), U) > 1e-6)
-    if k['id'] == KNOWN_OPTGIV:
-        W = np.array([[0.6, 0.8], [-0.8, 0.6]], dtype=complex)
-        Wc = W.copy()
-        list(of.optimal_givens_decomposition(cirq.LineQubit.range(2), W))
-        return bool(maxdiff(W, Wc) > 0)
     if k['id'] == KNOWN_DOC:
         doc = of.QuadraticFermionicSimulationGate.__doc__ or ''
         U = cirq.unitary(of.QuadraticFermionicSimulationGate((0.0, 1.0)))
